@@ -4,7 +4,8 @@
 //! session. Oracle: the brute-force statement of C15 on the generated events. Where the answer
 //! is fully determined (no RETURN clause, distinct times inside every link group and distinct
 //! earliest times across groups) the emitted pairs are also compared with the Lean model
-//! (`prefilter` op: sub-queries deliver rows passing their projected WHERE, one zone per type);
+//! (`matchset` / `matchcount` op on the rows the sub-queries delivered, one zone per type; the pair
+//! tokens are sorted on both sides — the order of link groups in the response is not compared);
 //! other cases put `skip` on both sides.
 use super::{oracle, spec_rows, Case, Col, Lit, Op, Zone, E};
 use snel_harness::enc::hexs;
@@ -330,12 +331,21 @@ impl Job {
         if determined {
             j.notes.push("compared-with-model");
             let order: Vec<String> = earliest.keys().cloned().collect();
-            j.op = super::op_line("match", &case, &order);
-            let mut t = vec!["ok".to_string(), pairs.len().to_string()];
-            for &(pa, pb) in &pairs {
-                let (xa, xb) = (pos_a[&eva[pa].id], pos_b[&evb[pb].id]);
-                t.push(if preceded { format!("0.{xb}>0.{xa}") } else { format!("0.{xa}>0.{xb}") });
+            // The property speaks of the set of pairs: the order in which link groups appear in the
+            // response is not compared (sorted tokens on both sides). When LIMIT cut the answer,
+            // which groups made it depends on that order too: only the count is compared.
+            let cut = limit.is_some_and(|l| parsed_unl.as_ref().map_or(pairs.len() >= l, |u| u.len() > l));
+            j.op = super::op_line(if cut { "matchcount" } else { "matchset" }, &case, &order);
+            let mut toks: Vec<String> = vec![];
+            if !cut {
+                for &(pa, pb) in &pairs {
+                    let (xa, xb) = (pos_a[&eva[pa].id], pos_b[&evb[pb].id]);
+                    toks.push(if preceded { format!("0.{xb}>0.{xa}") } else { format!("0.{xa}>0.{xb}") });
+                }
+                toks.sort();
             }
+            let mut t = vec!["ok".to_string(), pairs.len().to_string()];
+            t.extend(toks);
             j.imp = t.join(" ");
             j.nontrivial = !pairs.is_empty();
         } else {
